@@ -13,7 +13,9 @@ harness/src/zoo.rs (`trait Describe`):
   {"t": "enum", "n": name, "v": [{"n": variant, "k": "unit" | "newtype" | "tuple" | "struct", "a": …}…]}
 
 A node carrying `"target"` is a position whose Deserialize side is a BORROWED target (`&'de str`, `&'de [u8]`): the
-model's `toTarget` does not describe it (outside the grammar of the C04 theorems).
+model's `toTarget` does not describe it (outside the grammar of the C04 theorems).  A node carrying `"de"` has a Deserialize
+side that is ANOTHER type than its Serialize side (`&'de [u8]` without serde_bytes: a sequence of u8 out, bytes in; `from_type`
+follows the Deserialize side): `rtyOfJson false` reads the Serialize side, `rtyOfJson true` the Deserialize side.
 
 `valOfSVal t s`: the typed value whose serialization a recorded call stream is — the inverse of `Roundtrip.ser t`, type
 directed (a field left out by `skip_serializing_if` is `None`).  Lenient: the caller checks `ser t v = s` and `wt t v`.
@@ -47,7 +49,10 @@ def ventriesOfList : List (Val × Val) → VEntries
   | [] => .nil
   | (k, v) :: r => .cons k v (ventriesOfList r)
 
-partial def rtyOfJson (j : Json) : Except String Ty := do
+partial def rtyOfJson (de : Bool) (j : Json) : Except String Ty := do
+  if de then
+    if let some d := getOpt j "de" then return ← rtyOfJson de d
+  let rtyOfJson := rtyOfJson de
   let t ← getStr j "t"
   let name := (getStr j "n").toOption.getD ""
   let tys (a : Json) : Except String Tys := do pure (tysOfList (← (← a.getArr?).toList.mapM rtyOfJson))
